@@ -18,7 +18,7 @@ pub fn monitor() -> Monitor {
 
 pub fn gen_poly(rng: &mut Rng) -> Option<Case> {
   let dec = rng.below(10) as i32; // 1e-10 .. 1e0
-  let rmax = (10f64.powf(-10.0 + dec as f64 + rng.f())).min(0.79);
+  let mut rmax = (10f64.powf(-10.0 + dec as f64 + rng.f())).min(0.79);
   // depth such that R/cell in [0.02, 40]
   let mut cands = Vec::new();
   for d in 0..30u8 { let q = rmax * nside(d) as f64; if q >= 0.02 && q <= 40.0 { cands.push(d); } }
@@ -65,7 +65,7 @@ pub fn gen_poly(rng: &mut Rng) -> Option<Case> {
   let mut pts: Vec<(f64, f64)> = bear.iter().map(|&b| match special { Some((sp, th)) if th == b => (sp.0.rem_euclid(TWO_PI), sp.1), _ => point_at(lon, lat, if convex { rmax } else { rmax * (0.3 + 0.7 * rng.f()) }, b) }).collect();
   // one polygon in 12 is a longitude / latitude box: two edges exactly along meridians (consecutive vertices with the same longitude),
   // two edges between vertices of equal latitude
-  let mut convex = convex; let mut on_seam = false; let mut near_meridian_edge = false;
+  let mut convex = convex; let mut on_seam = false; let mut near_meridian_edge = false; let mut cell_polygon = false;
   if rng.below(12) == 0 && special.is_none() && lat.abs() + 1.5 * rmax < PI / 2.0 {
     let (w, h) = (rmax * rng.range(0.2, 0.7) / lat.cos().max(1e-3), rmax * rng.range(0.2, 0.7));
     pts = vec![(lon - w, lat - h), (lon + w, lat - h), (lon + w, lat + h), (lon - w, lat + h)];
@@ -92,13 +92,22 @@ pub fn gen_poly(rng: &mut Rng) -> Option<Case> {
     // counter-clockwise order is not required (either winding), but the centre of the generation circle must be inside the circle of the vertices
     lat -= sgn * h; lon -= w / 3.0; convex = true; near_meridian_edge = true;
   }
+  // one polygon in 20: the four vertices of a cell of depth 22..29 (as the crate returns them), covered at that depth .. that depth + 2:
+  // edges of 1e-9 .. 1e-6 rad running exactly along cell-edge directions (where the exact mode looks for special points)
+  if rng.below(20) == 0 && special.is_none() {
+    let dv = 22 + rng.below(8) as u8; let cs = crate::gen::sample_cells(rng, dv, 4); let hv = *rng.pick(&cs);
+    let vs = nested::get_or_create(dv).vertices(hv); let cc = nested::get_or_create(dv).center(hv);
+    if cc.1.abs() < PI / 2.0 - 0.05 {
+      pts = vs.to_vec(); lon = cc.0; lat = cc.1; convex = true; rmax = vs.iter().map(|v| dist(*v, cc)).fold(0.0, f64::max); depth = (dv + rng.below(3) as u8).min(29); cell_polygon = true;
+    }
+  }
   let cw = rng.coin();
   if cw { pts.reverse(); }
   // vertices given with longitudes outside [0, 2pi) (one polygon in 12, each vertex independently)
   // (one in 3 when an edge lies on a meridian k.pi/2: the two ends of the same meridian given with different numbers of turns)
   if rng.below(if on_seam { 3 } else { 12 }) == 0 { for p in pts.iter_mut() { if rng.coin() { p.0 += *rng.pick(&[-2.0, -1.0, 1.0]) * TWO_PI; } } }
   for p in pts.iter() { vl.push(p.0); vb.push(p.1); }
-  Some(Case::new("poly").u("depth", depth as u64).b("convex", convex).b("cw", cw).f("lon", lon).f("lat", lat).f("R", rmax).fl("vl", &vl).fl("vb", &vb).u("s", rng.next() >> 1).s("cls", &format!("R~1e{}{}", rmax.log10().floor() as i32, if on_seam { "/edge-on-k.pi/2" } else if near_meridian_edge { "/edge-almost-meridian" } else { "" })))
+  Some(Case::new("poly").u("depth", depth as u64).b("convex", convex).b("cw", cw).f("lon", lon).f("lat", lat).f("R", rmax).fl("vl", &vl).fl("vb", &vb).u("s", rng.next() >> 1).s("cls", &format!("R~1e{}{}", rmax.log10().floor() as i32, if cell_polygon { "/cell-of-depth>=22" } else if on_seam { "/edge-on-k.pi/2" } else if near_meridian_edge { "/edge-almost-meridian" } else { "" })))
 }
 
 fn run(ctx: &mut Ctx, extra: &mut BTreeMap<String, String>) {
